@@ -650,3 +650,78 @@ Proof.
   apply (G (S (k * S (length base)))). nia.
 Qed.
 End RepeatProofs.
+
+(* ------------------------------------------------------------------ *)
+(* (T) the functions translated from padded_batch_client_datasets on this run
+   (gen/Gen_client_datasets_multi.v) ARE the hand-written model                *)
+
+From FV Require Import gen.Gen_client_datasets_multi.
+
+Section GenTie.
+Context {A : Type} (zero : A) (pre : list A -> list A).
+
+Lemma gen_init_spec : pbcd_init = pinit (A:=A).
+Proof. reflexivity. Qed.
+
+Lemma gen_full_mask_spec bs : pbcd_full_mask bs = full_mask bs.
+Proof. reflexivity. Qed.
+
+Lemma gen_loop_spec : forall fuel bs size (ex : list A) start out,
+  pbcd_loop1 pre fuel bs (full_mask bs) out size ex start =
+  match emit_loop pre fuel bs size ex start out with Some (s, o) => Some (o, s) | None => None end.
+Proof.
+  induction fuel as [|fuel IH]; intros bs size ex start out; cbn [pbcd_loop1 emit_loop]; [reflexivity|].
+  destruct (start + bs <? size); [apply IH|reflexivity].
+Qed.
+
+Lemma gen_step_spec bs (st : pst) (d : cds A) :
+  pbcd_step pre (S (length (d_rows d))) bs (full_mask bs) st d = pstep pre bs st d.
+Proof.
+  unfold pbcd_step, pstep, check_pre, check_feat, ptail. rewrite !gen_loop_spec.
+  destruct (p_pre st) as [p|]; destruct (p_feat st) as [q|]; cbv zeta;
+    repeat match goal with
+           | |- context [if ?c then _ else _] => destruct c
+           | |- context [match p_buf st with _ => _ end] => destruct (p_buf st)
+           | |- context [match emit_loop ?a ?b ?c ?d ?e ?f ?g with _ => _ end] =>
+               destruct (emit_loop a b c d e f g) as [[? ?]|]
+           end; reflexivity.
+Qed.
+
+Lemma gen_finish_spec bs nb (st : pst (A:=A)) :
+  pbcd_finish zero pre bs nb (full_mask bs) st = pfinish zero pre bs nb st.
+Proof.
+  unfold pbcd_finish, pfinish. destruct (p_buf st); [reflexivity|]. cbv zeta.
+  destruct (pick (p_bufsize st) bs nb); reflexivity.
+Qed.
+
+(* the whole function, written with the translated pieces only *)
+Fixpoint gen_pfold (bs : Z) (st : pst) (ds : list (cds A)) : step_res :=
+  match ds with
+  | [] => SNext st
+  | d :: ds' => match pbcd_step pre (S (length (d_rows d))) bs (pbcd_full_mask bs) st d with
+                | SNext st' => gen_pfold bs st' ds'
+                | r => r
+                end
+  end.
+
+Definition gen_padded_batch_client_datasets (bs nb : Z) (ds : list (cds A)) : pres :=
+  match gen_pfold bs pbcd_init ds with
+  | SNext st => pbcd_finish zero pre bs nb (pbcd_full_mask bs) st
+  | SRaise out => PValueError out
+  | SFuel => PStuck
+  end.
+
+Lemma gen_pfold_spec bs : forall ds st, gen_pfold bs st ds = pfold pre bs st ds.
+Proof.
+  induction ds as [|d ds IH]; intros st; cbn [gen_pfold pfold]; [reflexivity|].
+  rewrite gen_full_mask_spec, gen_step_spec. destruct (pstep pre bs st d); auto.
+Qed.
+
+Lemma translated_is_model bs nb ds :
+  gen_padded_batch_client_datasets bs nb ds = padded_batch_client_datasets zero pre bs nb ds.
+Proof.
+  unfold gen_padded_batch_client_datasets, padded_batch_client_datasets.
+  rewrite gen_pfold_spec, gen_init_spec. destruct (pfold pre bs pinit ds); try reflexivity.
+  all: rewrite gen_full_mask_spec; apply gen_finish_spec.
+Qed.
+End GenTie.
